@@ -652,6 +652,15 @@ def run(facts, rep, cfg="default"):
         counts[kind] += 1
         if kind == "guarded":
             ok, why = is_guarded(facts.bodies[fn], s["bb"], d[1], facts)
+            if not ok and key in moved:
+                # the site moved into a helper that is called only behind the guard: judged at the call sites (the operand
+                # relation cannot be re-checked across the call and is taken over from the listed site)
+                known_ = load_known_fns() or set()
+                if norm_fn(fn) not in {norm_fn(k_) for k_ in known_}:
+                    cs = [c_ for c_ in facts.callers().get(fn, []) if c_[2] == "call" and c_[0] in reach]
+                    if cs and all(is_guarded(facts.bodies[c_[0]], c_[1], d[1], facts)[0] for c_ in cs):
+                        rep.ok("panicfree", fnk, "guarded-at-call-sites|" + key.split("|", 1)[1], detail="`%s` in the new helper %s: every call site is behind the %s guard" % (s["snip"], fnk, d[1]))
+                        continue
             if ok and len(d) > 2 and d[2]:
                 ok, why2 = relation_ok(facts.bodies[fn], s, d[1], d[2])
                 why = why + "; " + why2
